@@ -42,6 +42,12 @@ def run(rep, tier):
     from . import c13
     pm = prog.module(c13.PM)
     c13.r2(Premise(rep, "R0", "C13"), pm, pm.funcs.get("ParallelMap.__call__"), pm.funcs.get("ParallelMap.worker_run"), pm.funcs.get("ParallelMap.__init__"))
+    # the followed points are then refined: the integrating refinement moves a point along grad psi
+    # (it stays on its perpendicular); the Newton stage after it moves along the contour and must
+    # only see points the integration has placed (rule instances of C01.R1)
+    rep.rule("R4", "premise: refinement returns a point as converged only by the magnitude of its residual; the integrating method always returns the integrated position (C01.R1)")
+    from . import c01
+    c01.tolerance_tests(prog, Premise(rep, "R4", "C01"))
     # R1a: the ODE right-hand side
     inner = [n for n in ast.walk(f.node) if isinstance(n, ast.FunctionDef) and n.name == "f"]
     ok = False
